@@ -230,7 +230,7 @@ def merge_parts(cid, tier, scratch, wall, refusal=None, exhaustive_family=None):
             known.add(k)
     if not exhaustive_family and cov["families"]:
         # the free-running -race passes are samples by design; exhaustiveness is a statement about the enumerating families
-        cov["exhaustive"] = all(f.get("exhaustive", True) for n, f in cov["families"].items() if not n.startswith("free-running"))
+        cov["exhaustive"] = all(f.get("exhaustive", True) for n, f in cov["families"].items() if not n.startswith("free-running")) and refusal is None
     if exhaustive_family:
         fam = cov["families"].get(exhaustive_family)
         cov["exhaustive"] = bool(fam and fam.get("exhaustive")) and refusal is None
